@@ -27,6 +27,7 @@ type LoopSpec struct {
 
 type CallAssert struct {
 	Callee  string // method or function name
+	After   bool   // evaluated after the call returned instead of before it
 	Ordinal int    // 0 = every call
 	Clause  *Clause
 	Assume  bool // assumption instead of obligation
@@ -393,6 +394,12 @@ func parseClause(c *Contract, text, loc string) error {
 			callee = callee[:i]
 		}
 		rest := strings.TrimSpace(text[strings.Index(text, fields[1])+len(fields[1]):])
+		isAfter := false
+		if strings.HasPrefix(rest, "after ") {
+			// `call f after assert[l] e`: checked right after the call returns (its results are __lastret(f, i))
+			isAfter = true
+			rest = strings.TrimSpace(strings.TrimPrefix(rest, "after "))
+		}
 		isAssume := false
 		if strings.HasPrefix(rest, "assume") {
 			// an explicit environment assumption at a call (reported in the evidence, never silently)
@@ -407,7 +414,7 @@ func parseClause(c *Contract, text, loc string) error {
 		if err != nil {
 			return err
 		}
-		c.Calls = append(c.Calls, &CallAssert{Callee: callee, Ordinal: ord, Clause: cl, Assume: isAssume})
+		c.Calls = append(c.Calls, &CallAssert{Callee: callee, Ordinal: ord, Clause: cl, Assume: isAssume, After: isAfter})
 	default:
 		m := reHead.FindStringSubmatch(text)
 		if m == nil {
